@@ -22,10 +22,13 @@ CONSTANTS MCPods,       \* pods that may be set up
           MCMulti,      \* subset of BOOLEAN
           MCHow,        \* teardown variants, subset of {"cni", "dp", "generic"} (generic = GenericTearDown alone, the fallback DEL)
           BadDesign,    \* "" or the name of a seeded design error
+          MCEniGone,    \* BOOLEAN: may an ENI vanish while pods use it
           MCEnis,       \* ENIs (subnets) to choose from, subset of {1, 2}
           GenLen, GenOn
 VARIABLES hist,         \* controllable steps so far (scenario), only when GenOn
           served,       \* every pod of MCPods was set up at the same time at least once
+          eniGone,      \* ENIs that vanished from the node
+          orphaned,     \* some pod was live on an ENI when it vanished
           freed         \* per pod slot: subnet (ENI number) and families of the address its last, torn-down pod held; e = 0: none
 
 (* ---------------------------------------------------------------- concrete values of the bounded model *)
@@ -47,7 +50,7 @@ MCCfg(p, i, dp, fam, e, ae, def, multi, extra, trunk, peer) ==
      strip |-> trunk, defroute |-> def, multi |-> multi, peer |-> peer,
      extra |-> (IF extra >= 1 /\ v4 THEN <<[ip |-> <<100, 100, 0, 0>>, len |-> 16, gw |-> Ip4(e, 253)]>> ELSE <<>>)
                \o (IF extra >= 1 /\ v6 THEN <<[ip |-> B16(238, 1, 0, 0), len |-> 64, gw |-> B16(16, e, 255, 253)]>> ELSE <<>>),
-     host4 |-> IF v4 THEN <<10, 88, 0, 10>> ELSE <<>>, host6 |-> IF v6 THEN B16(136, 0, 0, 16) ELSE <<>>, eniIdx |-> 2 + e, aeni |-> ae]
+     host4 |-> IF v4 THEN <<10, 88, 0, 10>> ELSE <<>>, host6 |-> IF v6 THEN B16(136, 0, 0, 16) ELSE <<>>, eniIdx |-> 2 + e, aeni |-> ae, enigone |-> FALSE]
 
 (* ---------------------------------------------------------------- the reference design *)
 Rt(t, dst, dev, gw, scope) == [table |-> t, dst |-> dst, dev |-> dev, gw |-> gw, scope |-> scope, metric |-> 0, type |-> "unicast", proto |-> "boot"]
@@ -121,8 +124,9 @@ RefTeardown(S, gone) ==
         addrs == UNION { PodAddrs(c) : c \in cs }
         h1 == FoldLeft(LAMBDA s, name : DelLink(s, name), S[0],
                        SetToSeq({ c.hostveth : c \in { x \in cs : x.dp \in {"policy", "exclusive"} /\ ~(Bad("teardown_keeps_link") /\ x.dp = "policy") } }))
+        skip == IF Bad("teardown_skips_rules_without_eni") THEN UNION { PodAddrs(c) : c \in { x \in cs : x.enigone } } ELSE {}
         h2 == [h1 EXCEPT !.rules = { r \in @ : ~(r.prio \in (IF Bad("teardown_keeps_from_rule") THEN {512} ELSE {512, 2048})
-                                                  /\ (r.src \in addrs \/ r.dst \in addrs)) },
+                                                  /\ (r.src \in addrs \ skip \/ r.dst \in addrs \ skip)) },
                          !.routes = { r \in @ : ~(r.dst \in addrs /\ r.table = TMain)
                                                 /\ ~(Bad("teardown_flushes_eni_table") /\ r.table \in { EniTable(c) : c \in cs }) }]
     IN  [n \in NsIds |-> IF n = 0 THEN h2 ELSE IF n \in { c.pod : c \in cs } THEN EmptyNs ELSE S[n]]
@@ -148,6 +152,7 @@ MCInit == /\ ns = [n \in NsIds |-> IF n = 0 THEN NodeNs ELSE EmptyNs]
           /\ hist = <<>>
           /\ served = FALSE
           /\ freed = [p \in MCPods |-> NoFreed]
+          /\ eniGone = {} /\ orphaned = FALSE
 
 ASet == IF Len(hist) > 0 THEN hist[1].aset ELSE 0
 H(x) == hist' = IF GenOn THEN Append(hist, x) ELSE hist
@@ -168,6 +173,7 @@ Step ==
         /\ ~IsLive(live, AttId(p, 0)) /\ ~IsLive(live, AttId(p, 1))
         (* an ENI is a trunk or it is not: the pods sharing it agree *)
         /\ \A b \in Atts : IsLive(live, b) /\ live[b].dp \in {"policy", "ipvlan"} /\ r.dp \in {"policy", "ipvlan"} /\ live[b].eniIdx = 2 + r.e => live[b].strip = r.trunk
+        /\ r.dp # "exclusive" => r.e \notin eniGone
         (* keep: the new pod in this slot is given the address the slot's previous pod held (possibly on another ENI now) *)
         /\ (~GenOn /\ r.keep) => freed[p].e # 0
         /\ LET kp == freed[p].e # 0 /\ (IF GenOn THEN RandomElement(1..4) # 1 ELSE r.keep)      \* the generator favours re-use
@@ -179,7 +185,7 @@ Step ==
                S == IF Bad("stale_from_rule_kept") THEN [A EXCEPT ![0].rules = @ \cup { x \in ns[0].rules : x.prio = 2048 /\ x.src \in PodAddrs(c) }] ELSE A IN
            /\ SetupOk(c, S)
            /\ G("C13", Judge(ViolSysctl(c, ref.confs)))
-           /\ freed' = [freed EXCEPT ![p] = NoFreed]
+           /\ freed' = [freed EXCEPT ![p] = NoFreed] /\ UNCHANGED <<eniGone, orphaned>>
            /\ H([StepRec(p, 0, r.dp, fam, r.e, TRUE, r.multi, r.extra, r.trunk, r.peer) EXCEPT !.aset = (IF Len(hist) > 0 THEN hist[1].aset ELSE r.aset), !.keep = kp])
   \/ \E p \in MCPods : \E extra \in Draw(MCExtra) :
         (* the second interface of a multi-network pod: other ENI, no default route, same datapath and families *)
@@ -192,33 +198,49 @@ Step ==
            /\ \A b \in Atts : IsLive(live, b) /\ live[b].dp \in {"policy", "ipvlan"} /\ c.dp \in {"policy", "ipvlan"} /\ live[b].eniIdx = c.eniIdx => live[b].strip = c.strip
            /\ SetupOk(c, Applied(ns, ref.links, ref.confs))
            /\ G("C13", Judge(ViolSysctl(c, ref.confs)))
-           /\ UNCHANGED freed
+           /\ (c.dp # "exclusive" => e \notin eniGone)
+           /\ UNCHANGED <<freed, eniGone, orphaned>>
            /\ H(StepRec(p, 1, c0.dp, fam, e, FALSE, TRUE, extra, c0.strip, FALSE))
   \/ \E p \in MCPods : \E how \in Draw(MCHow) :
         /\ AttsOf(p) # {}
         /\ IF how = "generic" THEN TeardownGeneric(p, RefGeneric(ns, AttsOf(p)), AttsOf(p))
            ELSE TeardownOk(p, RefTeardown(ns, AttsOf(p)), AttsOf(p))
         /\ freed' = [freed EXCEPT ![p] = IF IsLive(live, AttId(p, 0)) /\ (GenOn \/ "generic" \in MCHow) THEN [e |-> live[AttId(p, 0)].aeni, fam |-> FamName(live[AttId(p, 0)])] ELSE @]
+        /\ UNCHANGED <<eniGone, orphaned>>
         /\ H([a |-> "teardown", p |-> p, i |-> 0, dp |-> "", fam |-> "", eni |-> 0, def |-> FALSE, multi |-> FALSE, extra |-> 0, trunk |-> FALSE,
               peer |-> FALSE, aset |-> ASet, how |-> how, keep |-> FALSE])
+
+EniName(e) == IF e = 1 THEN "eth1" ELSE "eth2"
+UsersOf(e) == { a \in Atts : IsLive(live, a) /\ live[a].eni = EniName(e) /\ live[a].dp \in {"policy", "ipvlan", "vlan"} }
+EniGoneStep ==
+    /\ MCEniGone
+    /\ \E e \in MCEnis \ eniGone :
+          /\ GenOn => (UsersOf(e) # {} /\ RandomElement(1..3) = 1)       \* the generator: only while pods use it, and not too often
+          /\ EniGone(EniName(e), [ns EXCEPT ![0] = DelLink(@, EniName(e))])
+          /\ eniGone' = eniGone \cup {e} /\ orphaned' = (orphaned \/ UsersOf(e) # {})
+          /\ UNCHANGED freed
+          /\ H([a |-> "enigone", p |-> 0, i |-> 0, dp |-> "", fam |-> "", eni |-> e, def |-> FALSE, multi |-> FALSE, extra |-> 0, trunk |-> FALSE,
+                peer |-> FALSE, aset |-> ASet, how |-> "", keep |-> FALSE])
 
 Emit(h) == Serialize(ToJson(h) \o "\n", IOEnv.VERIF_SCEN,
                      [format |-> "TXT", charset |-> "UTF-8", openOptions |-> <<"WRITE", "CREATE", "APPEND">>]).exitValue = 0
 Finish == /\ Len(hist) > 0 /\ hist[1].a # "end"
           /\ Emit(hist)
           /\ hist' = <<[a |-> "end"]>>
-          /\ UNCHANGED <<vars, served, freed>>
+          /\ UNCHANGED <<vars, served, freed, eniGone, orphaned>>
 
 AllServed(L) == \A p \in MCPods : IsLive(L, AttId(p, 0))
 MCNext == IF GenOn /\ Len(hist) >= GenLen THEN Finish
-          ELSE IF GenOn /\ Len(hist) > 0 /\ hist[1].a = "end" THEN UNCHANGED <<vars, hist, served, freed>>
-          ELSE Step /\ served' = (served \/ AllServed(live'))
-MCSpec == MCInit /\ [][MCNext]_<<vars, hist, served, freed>>
+          ELSE IF GenOn /\ Len(hist) > 0 /\ hist[1].a = "end" THEN UNCHANGED <<vars, hist, served, freed, eniGone, orphaned>>
+          ELSE (Step \/ EniGoneStep) /\ served' = (served \/ AllServed(live'))
+MCSpec == MCInit /\ [][MCNext]_<<vars, hist, served, freed, eniGone, orphaned>>
 
 (* with a seeded design error (BadDesign # "") some guard must refuse a step: the pods can never be all set up and then all *)
 (* torn down again.  Checked as an invariant by the *_bad runs: the guards are not vacuous.                                *)
 (* for the design error "a stale from-rule of the address survives Setup" (all teardowns generic): a policy-route pod can never *)
 (* be set up with an address that was last held on another ENI                                                                   *)
 ReuseRefused == ~\E a \in Atts : IsLive(live, a) /\ live[a].dp = "policy" /\ live[a].aeni # live[a].eniIdx - 2
+(* for "Teardown without an ENI index skips the rules": once a pod lost its ENI the node can never be idle again *)
+OrphanRefused == ~(orphaned /\ \A a \in Atts : ~IsLive(live, a) /\ owned[a] = {})
 BadRefused == ~(served /\ \A a \in Atts : ~IsLive(live, a) /\ owned[a] = {})
 =============================================================================
